@@ -325,10 +325,13 @@ pub fn apply_filter(f: StmFilter, data: &[u8]) -> (Vec<u8>, Option<&'static str>
 
 fn write_stream_obj(out: &mut Vec<u8>, dict: &Dict, data: &[u8], len_ref: Option<u32>) {
     let mut d = dict.clone();
-    d.retain(|(k, _)| k != "Length");
-    match len_ref {
-        Some(n) => d.push(("Length".into(), Val::Ref(n, 0))),
-        None => d.push(("Length".into(), Val::Int(data.len() as i64))),
+    // "@Length": a hostile /Length written instead of the true one
+    let forced = d.iter().find(|(k, _)| k == "@Length").map(|(_, v)| v.clone());
+    d.retain(|(k, _)| k != "Length" && k != "@Length");
+    match (forced, len_ref) {
+        (Some(v), _) => d.push(("Length".into(), v)),
+        (None, Some(n)) => d.push(("Length".into(), Val::Ref(n, 0))),
+        (None, None) => d.push(("Length".into(), Val::Int(data.len() as i64))),
     }
     write_dict(out, &d);
     out.extend_from_slice(b"\nstream\n");
